@@ -63,6 +63,9 @@ func (m c12) Run(ctx *core.Ctx) {
 					v = ""
 				}
 				op = sOp("search", v)
+				if r.IntN(6) == 0 {
+					op = sOp("search-current") // SetSearch(u.Search()): same text, the list must still be re-parsed
+				}
 			case 7:
 				op = sOp("refetch")
 			default:
@@ -169,8 +172,11 @@ func (c12) Exec(ctx *core.Ctx, cs *core.Case) {
 					return
 				}
 			}
-		case op.Name == "search":
+		case op.Name == "search" || op.Name == "search-current":
 			v := op.Arg(0)
+			if op.Name == "search-current" {
+				v = u.Search()
+			}
 			if pan := ctx.Call(len(v)+256, func() { u.SetSearch(v) }); pan != nil {
 				ctx.Violate("SetSearch panics", "", pan.String(), where)
 				return
